@@ -22,7 +22,9 @@ CORE = {"AddParagraph", "AddHeadingParagraphWithBookmark", "AddTable", "AddMathF
 # a read accessor between edits (an answer remembered from an earlier length), empty texts, caller-built elements
 READ = {"AddParagraph", "Read", "RemoveParagraphAt"}
 TEXTS = {"AddParagraph", "AddFootnote", "AddEndnote", "AddListItem", "AddTable", "AddElement", "Read", "RemoveParagraphAt"}
-ALL = CORE | {"Read", "AddElement", "AddFormattedParagraph", "AddHeadingParagraph", "AddHeadingWithBookmark", "AddPageBreak", "AddImage",
+# repeated appends of equal things (same picture bytes and config object), many-at-once appends with a blank item
+REPEAT = {"AddImage", "CreateMultiLevelList", "AddParagraph", "RemoveElementAt"}
+ALL = CORE | {"Read", "AddElement", "CreateMultiLevelList", "AddFormattedParagraph", "AddHeadingParagraph", "AddHeadingWithBookmark", "AddPageBreak", "AddImage",
               "AddListItem", "AddFootnote", "AddEndnote", "SetPageSize", "SetPageOrientation", "GetPageSettings",
               "AddFooter", "AddHeaderWithPageNumber", "AddFooterWithPageNumber", "SetDifferentFirstPage",
               "SetDocGrid", "ClearDocGrid"}
@@ -49,6 +51,9 @@ def pipeline(ctx, cases_by=None):
         cases = ctx.tlc_gen("Body_MC.tla", gencfg(ctx, "gen_txt.cfg", TEXTS, 3, txt=("tok", "empty"), idx=(0, 1) if q else ()), "txt")
         obs = ctx.run_exec("body", cases, "txt")
         ctx.tlc_trace("Body_Trace.tla", "Body_Trace.cfg", obs, "txt")
+        cases = ctx.tlc_gen("Body_MC.tla", gencfg(ctx, "gen_rep.cfg", REPEAT, 3 if q else 4, idx=(0, 1)), "rep")
+        obs = ctx.run_exec("body", cases, "rep")
+        ctx.tlc_trace("Body_Trace.tla", "Body_Trace.cfg", obs, "rep")
         d = 12 if q else 24
         sim = ctx.tlc_gen("Body_MC.tla", gencfg(ctx, "gen_sim.cfg", ALL, d, txt=("tok", "empty")), "sim", mode="sim", num=40 if q else 1500, depth=d + 1)
         obs = ctx.run_exec("body", sim, "sim")
